@@ -100,3 +100,40 @@ def reseal(data):
             out = corpus.set_bits(out, b["bit_crc"], 32, b["crc_calc"])
         out = corpus.set_bits(out, s["bit_crc"], 32, s["crc_calc"])
     return out
+
+
+def gen(tape, max_block=4000, allow_big=False, defect=-1):
+    """Choice-tape generator (bzkit/bzgen.hpp).  tape: bytes.  defect: -1 valid file, -2 chosen by the tape,
+    > 0 a catalogue entry.  Returns (file bytes, plaintext of the valid version, info dict)."""
+    import ctypes
+    L = _lib()
+    if not hasattr(L, "_gen_ready"):
+        L.bzk_gen.restype = ctypes.c_void_p
+        L.bzk_gen.argtypes = [ctypes.c_char_p, ctypes.c_size_t, ctypes.c_int, ctypes.c_int, ctypes.c_int,
+                              ctypes.POINTER(ctypes.c_void_p), ctypes.POINTER(ctypes.c_size_t),
+                              ctypes.POINTER(ctypes.c_void_p), ctypes.POINTER(ctypes.c_size_t)]
+        L.bzk_gen_ndefects.restype = ctypes.c_int
+        L.bzk_gen_defect_name.restype = ctypes.c_char_p
+        L.bzk_gen_defect_name.argtypes = [ctypes.c_int]
+        L._gen_ready = True
+    bp, pp = ctypes.c_void_p(), ctypes.c_void_p()
+    bl, pl = ctypes.c_size_t(), ctypes.c_size_t()
+    tape = bytes(tape)
+    js = L.bzk_gen(tape, len(tape), int(max_block), int(bool(allow_big)), int(defect),
+                   ctypes.byref(bp), ctypes.byref(bl), ctypes.byref(pp), ctypes.byref(pl))
+    try:
+        info = json.loads(ctypes.string_at(js))
+        data = ctypes.string_at(bp.value, bl.value)
+        plain = ctypes.string_at(pp.value, pl.value)
+    finally:
+        L.bzk_free(js)
+        L.bzk_free(bp)
+        L.bzk_free(pp)
+    return data, plain, info
+
+
+def gen_defects():
+    import ctypes
+    L = _lib()
+    gen(b"")
+    return [L.bzk_gen_defect_name(i).decode() for i in range(L.bzk_gen_ndefects())]
